@@ -44,6 +44,7 @@ CONSTANTS
   NT = %(nt)d
   MaxBody = %(maxbody)d
   Limit = %(limit)d
+  FewPages = %(fewpages)s
   Growth = %(growth)s
   BlockSize = %(block)d
   Cap = 262144
@@ -130,7 +131,7 @@ def B(x):
 
 
 def vm_cfg(nt, limit, maxbody=2, growth=False, swallow=2, dec=True, capbyname=True, emit=True):
-    return VM_CFG % dict(nt=nt, maxbody=maxbody, limit=limit, growth=B(growth), block=BLOCK, swallow=swallow, dec=B(dec),
+    return VM_CFG % dict(nt=nt, maxbody=maxbody, limit=limit, growth=B(growth), fewpages=B(nt >= 3), block=BLOCK, swallow=swallow, dec=B(dec),
                          capbyname=B(capbyname), emit=B(emit))
 
 
@@ -221,8 +222,15 @@ def measure(db, text, mem=False, limit=None, steps=True):
     from harness.templwiki import StepCounter
     from mwlib.parser.templ.evaluate import Expander
     kw = {} if limit is None else {"recursion_limit": limit}
+    # #expr memoises results per process; where the memo can be reached it is emptied so that every case is
+    # measured cold (a memo hit only makes a case cheaper: it cannot cause a disagreement, only hide one)
     from mwlib.parser import expr as _expr
-    _expr._cache.clear()          # #expr memoises results per process: every case is measured cold
+    memo = getattr(_expr, "_cache", None)
+    if hasattr(memo, "clear"):
+        memo.clear()
+    for f in (getattr(_expr, "expr", None), getattr(getattr(_expr, "Expr", None), "parse_expr", None)):
+        if hasattr(f, "cache_clear"):
+            f.cache_clear()
     r = {"ok": False, "out_len": 0, "steps": 0, "peak": 0, "err": None, "where": None, "cls": None, "count": None}
     signal.signal(signal.SIGALRM, _alarm)
     signal.alarm(WATCHDOG_S)
@@ -265,8 +273,8 @@ def judge_call(lang, name, shapes, twin, db, cache):
     out = []
     arglen = sum(len(SHAPES[s]) for s in shapes) + len(name)
     if not m["ok"]:
-        out.append(("expandTemplates %s %s fn=%s name=%s arity=%d lang=%s" % (m["cls"], m["where"], fn, name.upper(), len(shapes), lang),
-                    "%s raised/failed: %s" % (text[:120], m["err"]), rep))
+        out.append(("expandTemplates %s fn=%s shapes=%s name=%s lang=%s" % (m["cls"], fn, ",".join(shapes) or "-", name.upper(), lang),
+                    "%s raised/failed: %s (innermost mwlib frame %s)" % (text[:120], m["err"], m["where"]), rep))
         return out
     if m["out_len"] > OUT_C * arglen + OUT_K:
         out.append(("disproportionate fn=%s kind=output shapes=%s name=%s lang=%s" % (fn, ",".join(shapes), name.upper(), lang),
@@ -324,8 +332,8 @@ def _time_worker(args):
         text = time_text(code, c["pre"], c["date"])
         m = measure(db, text)
         if not m["ok"]:
-            bad.append(("expandTemplates %s %s fn=#TIME format=%s%s date=%s" % (m["cls"], m["where"], "xr" if c["pre"] == "xr" else "", code, c["date"]),
-                        "%s raised/failed: %s" % (text, m["err"]), {"kind": "time", "f": code, "pre": c["pre"], "date": c["date"]}))
+            bad.append(("expandTemplates %s fn=#TIME format=%s%s date=%s" % (m["cls"], "xr" if c["pre"] == "xr" else "", code, c["date"]),
+                        "%s raised/failed: %s (innermost mwlib frame %s)" % (text, m["err"], m["where"]), {"kind": "time", "f": code, "pre": c["pre"], "date": c["date"]}))
     return len(cases), bad
 
 
@@ -347,10 +355,11 @@ def _junk_worker(args):
             n += 1
             m = measure(db, text, steps=False)
             if not m["ok"]:
-                bad.append(("expandTemplates %s %s junk=%s x%d as=%s" % (m["cls"], m["where"], json.dumps("".join(c["lex"])), c.get("rep", 1), place),
-                            "%r x%d as %s: %s" % ("".join(c["lex"]), c.get("rep", 1), place, m["err"]), {"kind": "junk", "lex": c["lex"], "rep": c.get("rep", 1)}))
+                bad.append(("expandTemplates %s junk x%d seq=%s as=%s" % (m["cls"], c.get("rep", 1), json.dumps("".join(c["lex"])), place),
+                            "%r x%d as %s: %s (innermost mwlib frame %s)" % ("".join(c["lex"]), c.get("rep", 1), place, m["err"], m["where"]),
+                            {"kind": "junk", "lex": c["lex"], "rep": c.get("rep", 1)}))
             elif m["count"] != 0:
-                bad.append(("recursion_count=%s after junk=%s x%d as=%s" % (m["count"], json.dumps("".join(c["lex"])), c.get("rep", 1), place),
+                bad.append(("recursion_count=%s after junk x%d seq=%s as=%s" % (m["count"], c.get("rep", 1), json.dumps("".join(c["lex"])), place),
                             "counter not restored", {"kind": "junk", "lex": c["lex"], "rep": c.get("rep", 1)}))
     shutil.rmtree(path, ignore_errors=True)
     return n, bad
@@ -422,7 +431,7 @@ def vm_run(Logged, db, c, t, p, nm):
     want_log = [tuple(x) for x in c["log"]]
     rep = {"kind": "vm", "case": c, "templates": t, "page": p if len(p) < 2000 else p[:200] + "..."}
     # "argcap": the model predicts that an argument outgrows the 256 KiB cap and is reported inline
-    key = "recursion guard%s limit=%d univ=%s page=%s" % (" argcap" if "E" in c["out"] else "", c["limit"], json.dumps(c["univ"]), json.dumps(c["page"]))
+    key = "recursion guard%s limit=%d univ=%s page=%s" % (" argcap" if c.get("capped") else "", c["limit"], json.dumps(c["univ"]), json.dumps(c["page"]))
     signal.signal(signal.SIGALRM, _alarm)
     signal.alarm(WATCHDOG_S)
     try:
@@ -485,6 +494,8 @@ def run(ctx):
         kw.setdefault("timeout", 2400)
         return ex.submit(tlc.run, ctx, module, cfg, name=name, workers=max(2, ctx.ncpu // 4), heap="6g", **kw)
     langs = ["en"] if quick else ["en", "de", "fr", "ja", "es", "it", "nl", "pl", "pt", "sv", "no", "simple"]
+    if os.environ.get("VERIF_C03_ONLY") == "vm":
+        langs = []
     f_vm = [T("TemplateVM", vm_cfg(nt, limit, growth=growth), "TemplateVM_%d_%d%s" % (nt, limit, "g" if growth else ""))
             for nt, limit, growth in vm_plans]
     f_cov = T("TemplateVM", vm_cfg(1, 10, growth=True, emit=False), "TemplateVM_cov", coverage=True)
@@ -497,13 +508,13 @@ def run(ctx):
     for li, lang in enumerate(langs):
         tables[lang] = name_table(lang)
         full3 = (not quick) and lang == "en"
-        stride = 1000 if quick else (10 if full3 else 40)
-        stride2 = 40 if quick else (1 if full3 else 4)
+        stride = 1000 if quick else (20 if full3 else 100)
+        stride2 = 40 if quick else (1 if full3 else 8)
         f_calls[lang] = T("MagicCalls", mc_cfg("calls", nnames=len(tables[lang]), arity=3, stride=stride, stride2=stride2, phase=ctx.seed + li),
                           "MagicCalls_%s" % lang)
     formats = format_table()
     f_time = T("MagicCalls", mc_cfg("time", nformats=len(formats)), "MagicCalls_time")
-    f_junk = T("MagicCalls", mc_cfg("junk", maxlex=3, maxdeep=2 if quick else 3), "MagicCalls_junk", coverage=True)
+    f_junk = T("MagicCalls", mc_cfg("junk", maxlex=3, maxdeep=2), "MagicCalls_junk", coverage=True)
     ex.shutdown(wait=False)
 
     for (nt, limit, growth), fut in zip(vm_plans, f_vm):
@@ -536,6 +547,12 @@ def run(ctx):
     hit_limit = sum(1 for c in vm_cases if any(k == c["limit"] + 1 for _, k in c["log"]) or
                     (len(c["out"]) < sum(1 for x in c["page"] if x == "a")))
 
+    if os.environ.get("VERIF_C03_ONLY") == "vm":          # development aid: the recursion-guard part alone
+        for key, what, rep in sorted(allbad)[:25]:
+            ctx.violation(key, what, rep)
+        ctx.set_cover(evaluations=n_vm, distinct_nontrivial=deep, rule="development run: recursion guard only", states=states, transitions=trans)
+        ctx.sample(vm_cases[0])
+        return
     # ---- 2. magic words / parser functions
     n_calls = 0
     names_total = 0
@@ -611,10 +628,10 @@ def run(ctx):
                   recursion_behaviours_hitting_the_limit=hit_limit,
                   magic_calls=n_calls, magic_names=names_total, junk_cases=n_junk, disagreements=len(allbad),
                   action_coverage={a: cov.coverage[a] for a in VM_ACTIONS}, nonvacuity=nonvac, exhaustive=False,
-                  rule="(1) every terminal behaviour of TemplateVM.tla (all call graphs on NT templates with bodies of <= 2 items, 33 pages, "
+                  rule="(1) every terminal behaviour of TemplateVM.tla (all call graphs on NT templates with bodies of <= 2 items, 33 pages (3 pages for NT=3), "
                        "Limit in {2,3,4}, and with doubling calls / block arguments at Limit 10; plans %r as (NT, Limit, Growth)) replayed on the real Expander — non-trivial = nesting deeper than 2; (2) every call "
                        "TLC enumerates from MagicCalls.tla over the name table generated from the running code for sites %r (arity 0..2 "
-                       "complete in thorough; in quick arity 0..1 complete, arity 2 / 3 thinned by strides 40 / 1000; thorough: en 1 / 10, other sites 4 / 40; 23 shapes = 10 base + 13 'arithmetic at the edges', at most one edge shape per tuple) — each is a distinct (name, shapes) input; (3) every "
+                       "complete in thorough; in quick arity 0..1 complete, arity 2 / 3 thinned by strides 40 / 1000; thorough: en 1 / 20, other sites 8 / 100; 23 shapes = 10 base + 13 'arithmetic at the edges', at most one edge shape per tuple) — each is a distinct (name, shapes) input; (3) every "
                        "sequence of <= 3 lexemes over the 23-lexeme template alphabet (those of <= 2 lexemes also repeated 3000 times), as page and as "
                        "template body; (4) every #time format code of magic_time.CODENAMES, alone and behind 'xr', x 10 date shapes" % (vm_plans, langs))
     for c in vm_cases[:: max(1, len(vm_cases) // 2)][:2]:
